@@ -64,7 +64,8 @@ CLAIMED = {
          "languages are - each of their blocks is looked up or inserted in place (plan_sorted: the scan for the last earlier block, insertion keeps a sorted list "
          "sorted) - and every paragraph carrying a cue's text sits in a block that starts at that cue's start millisecond (paragraphs_in_own_block); "
          "after the SAMI writer's loop over the languages the stylesheet contains the rule 'lang: <code>;' of EVERY language, whatever the codes "
-         "(stylesheet_declares_every_language; the searched text is regenerated from the source; the pre-repair test is refuted by "
+         "(stylesheet_declares_every_language), and a language whose paragraphs are labelled with the language code itself gets a class of that name "
+         "(stylesheet_declares_label_class; the searched text is regenerated from the source; the pre-repair test is refuted by "
          "stylesheet_old_test_counterexample). The multi-language SAMI sync plan (lookup of an existing block, insertion after the last earlier / before the first later one) is the "
          "executable model these theorems are about, compared with the writer for 1-4 languages; DFXP/SAMI outputs are parsed independently (one div per language in order with its "
          "cues; paragraphs in the block of their start time) and read back; force=, WebVTT lang=, reader lang= and the div-language fallback incl. "
